@@ -17,6 +17,7 @@ RULE = ("A zoo transform, a flow over it (StandardNormal / ConditionalDiagonalNo
         "pre-call clone; evaluation mode: every state_dict entry bit-identical after the sequence and the same call repeated "
         "under the same RNG seed returns bit-identical results; training mode: only running_mean / running_var / "
         "num_batches_tracked and ActNorm's first-forward initialisation (log_scale, shift, initialized) may change. "
+        "Training flags of all sub-modules, dtypes of all parameters/buffers and non-persistent buffers are compared too. "
         "After the sequence the used object must answer like never-called deep copies on another batch size and, for trees of "
         "elementwise layers, on events with an extra leading dimension. "
         "Non-trivial: the object has parameters or buffers and >= 2 different methods are called. Distinct = distinct JSON.")
@@ -171,6 +172,10 @@ def run_case(case):
         watch += [("context " + nm, t, cl) for nm, t, cl in wc]
         pristine = copy.deepcopy(obj)       # never called: reference for 'results do not depend on earlier calls'
         sd0 = {k: v.detach().clone() for k, v in obj.state_dict().items()}
+        # what state_dict() does not show: non-persistent buffers (values and dtypes) and the training flag of every sub-module
+        hidden0 = {n: t.detach().clone() for n, t in obj.named_buffers() if n not in sd0}
+        dtypes0 = {n: t.dtype for n, t in list(obj.named_parameters()) + list(obj.named_buffers())}
+        flags0 = {n: m.training for n, m in obj.named_modules()}
         was_init = bool(sd0.get("initialized", torch.tensor(True))) if any(k.endswith("initialized") for k in sd0) else True
         methods = []
         first_results = {}
@@ -283,6 +288,23 @@ def run_case(case):
                              probe=str(list(P.shape)))
                     return res
         # model state
+        flags1 = {n: m.training for n, m in obj.named_modules()}
+        flipped = [n or "<root>" for n in flags0 if flags1.get(n) != flags0[n]]
+        if flipped:
+            res.fail("mode_flag_changed", site, "calls %s switched the training flag of sub-modules %s" % (methods, flipped[:4]), mode=case["mode"])
+            return res
+        dt1 = {n: t.dtype for n, t in list(obj.named_parameters()) + list(obj.named_buffers())}
+        moved = [n for n in dtypes0 if dt1.get(n) != dtypes0[n]]
+        if moved:
+            res.fail("state_dtype_changed", site, "calls %s changed the dtype of %s" % (methods, ["%s: %s -> %s" % (n, dtypes0[n], dt1.get(n)) for n in moved[:3]]),
+                     mode=case["mode"])
+            return res
+        hidden1 = dict(obj.named_buffers())
+        hchanged = [n for n, t in hidden0.items() if n not in hidden1 or hidden1[n].shape != t.shape or
+                    not torch.allclose(hidden1[n].double(), t.double(), rtol=0, atol=0, equal_nan=True)]
+        if hchanged and case["mode"] == "eval":
+            res.fail("state_changed_in_eval", site, "evaluation-mode calls %s changed non-persistent buffers %s" % (methods, hchanged[:4]), entries=hchanged[:3])
+            return res
         sd1 = obj.state_dict()
         changed = [k for k in sd0 if not torch.allclose(sd0[k].float() if sd0[k].dtype != torch.bool else sd0[k].float(),
                                                         sd1[k].float(), rtol=0, atol=0, equal_nan=True)]
